@@ -524,10 +524,118 @@ def write_evidence(ctx, level="model_checking", rule="", assumptions=()):
         json.dump(ev, f, indent=1)
 
 
+def selftest():
+    """Binding demonstration: corrupt recorded artefacts and require the specification to reject them."""
+    ctx = Ctx("selftest", "quick", 1)
+    results = []
+
+    def gen(driver, n, name):
+        tf = os.path.join(ctx.work, name + ".ndjson")
+        run_harness(ctx, ["drive", "-prop", driver, "-seed", "7", "-n", str(n), "-out", tf, "-probes", "40"])
+        return [json.loads(l) for l in open(tf)]
+
+    def rejected(evs, name):
+        tf = os.path.join(ctx.work, name + "-mut.ndjson")
+        with open(tf, "w") as f:
+            for e in evs:
+                f.write(json.dumps(e) + "\n")
+        r = validate_trace(ctx, "st-" + name, tf)
+        return r["rejected"], r["fails"]
+
+    def expect(name, evs, pred_idx, clause, frac=1.0):
+        rej, fails = rejected(evs, name)
+        hit = sum(1 for i in pred_idx if i in rej and clause in fails.get(i, []))
+        ok = len(pred_idx) > 0 and hit >= frac * len(pred_idx)
+        results.append((name, ok, "%d corrupted events, %d rejected with clause %s" % (
+            len(pred_idx), sum(1 for i in pred_idx if i in rej and clause in fails.get(i, [])), clause)))
+
+    try:
+        build_harness(ctx)
+        # 0. sanity: the uncorrupted traces are accepted (apart from listed findings)
+        evs = gen("C01", 60, "c01")
+        base_rej, _ = rejected(evs, "c01-base")
+        # 1. drop one path of a logged solution
+        mut, idx = [], []
+        for i, e in enumerate(evs, 1):
+            e = dict(e)
+            if len(e["sol"]) >= 1 and e.get("nontriv") and i not in base_rej and len(idx) < 10:
+                e["sol"] = e["sol"][1:]
+                idx.append(i)
+            mut.append(e)
+        # (a removed path can be too small to contain one of the recorded probes: 80 % must be caught)
+        expect("C01: first path of the logged solution removed", mut, idx, "C01", frac=0.8)
+        # 2. argument mutation flag
+        evs = gen("ARGS:C01", 20, "args")
+        mut = [dict(e, argsSame=False) for e in evs]
+        expect("C12: recorded 'arguments unchanged' flipped", mut, list(range(1, len(mut) + 1)), "ARGS")
+        # 3. engine state binding: corrupt an EngAdd event, the later EngExec must be rejected
+        hist = ['<<"HIST", %s>>' % json.dumps(json.dumps({"kind": "64", "ops": [
+            {"op": "add", "p": 1, "ptype": 0, "open": False, "form": "", "ct": 0, "fr": 0},
+            {"op": "add", "p": 2, "ptype": 1, "open": False, "form": "", "ct": 0, "fr": 0},
+            {"op": "exec", "p": 0, "ptype": 0, "open": False, "form": "closed", "ct": 4, "fr": 1}]}))]
+        hf = os.path.join(ctx.work, "st-hist.txt")
+        open(hf, "w").write("\n".join(hist) + "\n")
+        tf = os.path.join(ctx.work, "st-life.ndjson")
+        run_harness(ctx, ["replay-life", "-in", hf, "-out", tf])
+        evs = [json.loads(l) for l in open(tf)]
+        mut, idx = [], []
+        for i, e in enumerate(evs, 1):
+            e = dict(e)
+            if e["ev"] == "EngAdd" and e["ptype"] == 1:
+                e["paths"] = [[[x + 40, y] for x, y in q] for q in e["paths"]]
+            if e["ev"] == "EngExec":
+                idx.append(i)
+            mut.append(e)
+        expect("C12: an AddPaths event altered (the specification's engine state no longer matches the real one)", mut, idx, "C12")
+        # 4. SimplifyPath: hook removed (no removal order recorded) / bogus removal
+        evs = gen("C16", 200, "c16")
+        mut, idx = [], []
+        for i, e in enumerate(evs, 1):
+            e = dict(e)
+            if len(e["removed"]) > 0 and len(idx) < 10:
+                e["removed"] = []
+                idx.append(i)
+            mut.append(e)
+        expect("C16: removal hook silenced (recorded removal order emptied)", mut, idx, "C16")
+        # 5. TrimCollinear: a non-collinear vertex removed from the recorded result
+        evs = gen("C15", 60, "c15")
+        mut, idx = [], []
+        for i, e in enumerate(evs, 1):
+            e = dict(e)
+            if not e["isOpen"] and len(e["res"]) >= 4 and len(idx) < 6:
+                e["res"] = e["res"][1:]
+                e["res2"] = e["res"]
+                idx.append(i)
+            mut.append(e)
+        expect("C15: one vertex dropped from the recorded result", mut, idx, "C15")
+        # 6. a precision panic logged as a normal return, and a normal return logged as a panic
+        evs = gen("C07", 120, "c07")
+        mut, idx = [], []
+        for i, e in enumerate(evs, 1):
+            e = dict(e)
+            if e["out"] == "ok" and len(idx) < 8:
+                e["out"] = "panic:precision is out of range"
+                idx.append(i)
+            mut.append(e)
+        expect("C07: outcome replaced by the precision panic", mut, idx, "C07")
+    except ToolError as e:
+        log("TOOL-ERROR:", e)
+        ctx.cleanup()
+        return 2
+    bad = 0
+    for name, ok, what in results:
+        log("%s  %s  (%s)" % ("REJECTED-AS-REQUIRED" if ok else "NOT-REJECTED", name, what))
+        bad += 0 if ok else 1
+    ctx.cleanup()
+    return 0 if bad == 0 else 1
+
+
 def main(argv):
     from props import PROPS  # property table
     if argv and argv[0] == "--setup":
         return setup()
+    if argv and argv[0] == "selftest":
+        return selftest()
     if len(argv) < 2:
         print(__doc__)
         return 2
